@@ -507,6 +507,43 @@ func runConcurrent(cp concProgram) []*result {
 	return rs
 }
 
+
+// runStress: the at-most-once clause under real contention.  Every round backend 0 (PLAY) sends
+// ONE keep-alive with a fresh id, then `workers` goroutines released by a spin barrier all call
+// forwardKeepAlive with that id.  Exactly one of them may reach the backend.  Returns the history
+// of the first round in which the id was written more than once (bad = true), otherwise of the
+// last round, plus how many rounds ran.
+func runStress(rounds, workers, via int) (rs []*result, bad bool, ran int) {
+	w := newWorld([]int{stPlay}, 0, -1)
+	for round := 1; round <= rounds; round++ {
+		id := int64(round)
+		rec := &result{o: op{kind: kBackend, c: 0, id: id, via: 0}}
+		w.exec(rec, nil)
+		res := make([]*result, workers)
+		bar := &spinBarrier{n: int64(workers)}
+		var wg sync.WaitGroup
+		for i := range res {
+			res[i] = &result{o: op{kind: kReply, id: id, via: via}, thread: i + 1}
+			wg.Add(1)
+			go func(r *result) {
+				defer wg.Done()
+				w.exec(r, func() { bar.wait(1) })
+			}(res[i])
+		}
+		wg.Wait()
+		writes := 0
+		for _, r := range res {
+			writes += len(r.writes)
+		}
+		ran = round
+		rs = append([]*result{rec}, res...)
+		if writes > 1 {
+			return rs, true, ran
+		}
+	}
+	return rs, false, ran
+}
+
 func overlaps(rs []*result) bool {
 	for i, a := range rs {
 		for j, b := range rs {
@@ -545,7 +582,7 @@ func main() {
 	rng := lib.NewRng(f.Seed)
 	out := lib.NewOut("C18", f)
 	out.Imports = "From Verif Require Import Base.Lin Model.KeepAlive.\n"
-	out.Rule = "three streams over a real connectedPlayer with 1..3 serverConnections on recording backend connections: (seq) 4..40 calls: backend keep-alives (through recordBackendKeepAlive or the transition/config/play backend handlers), client replies (through forwardKeepAlive or the play/config client handlers), connection status changes (nil, closed, Handshake..Play) and changes of the connected / in-flight slot; ids mostly from a pool of 6 (repeats, duplicates, unknown), some random or extreme int64; (overflow) 60..72 distinct ids pending on one connection with refreshes and intermediate replies, then replies around the eviction boundary; (conc) 2..4 goroutines, 1..3 calls each, ids disjoint per connection, logical clock. Non-trivial: seq/overflow = at least one reply forwarded and at least one dropped; conc = two calls of different goroutines overlapped. Distinct = distinct Coq case terms."
+	out.Rule = "three streams over a real connectedPlayer with 1..3 serverConnections on recording backend connections: (seq) 4..40 calls: backend keep-alives (through recordBackendKeepAlive or the transition/config/play backend handlers), client replies (through forwardKeepAlive or the play/config client handlers), connection status changes (nil, closed, Handshake..Play) and changes of the connected / in-flight slot; ids mostly from a pool of 6 (repeats, duplicates, unknown), some random or extreme int64; (overflow) 60..72 distinct ids pending on one connection with refreshes and intermediate replies, then replies around the eviction boundary; (conc) 2..4 goroutines, 1..3 calls each, ids disjoint per connection, logical clock; (stress) per case 5000 rounds of: one fresh id from a PLAY backend, then 8 goroutines released by a spin barrier all reply with that id — the case shown to Coq is the first round in which the id reached the backend twice, else the last round. Non-trivial: seq/overflow = at least one reply forwarded and at least one dropped; conc = two calls of different goroutines overlapped. Distinct = distinct Coq case terms."
 
 	nSeq, nOv, nConc := f.Count(200), f.Count(10), f.Count(90)
 	for i := 0; i < nSeq; i++ {
@@ -590,5 +627,30 @@ func main() {
 		}
 		out.Add(caseTerm(cp.stats, cp.cur, cp.inf, true, rs), caseDesc("conc", cp.stats, cp.cur, cp.inf, rs), ov, tags...)
 	}
+	// stress: same id answered by 8 goroutines at once, thousands of rounds per case
+	nStress := 2
+	if f.Tier != "quick" {
+		nStress = 6
+	}
+	for i := 0; i < nStress; i++ {
+		r := rng.Fork()
+		via := r.Intn(3)
+		if !out.Wanted() {
+			out.Add("", nil, false)
+			continue
+		}
+		const rounds, workers = 5000, 8
+		rs, bad, ran := runStress(rounds, workers, via)
+		tags := []string{"kind=stress"}
+		if bad {
+			tags = append(tags, "stress-double-forward")
+		}
+		d := caseDesc("stress", []int{stPlay}, 0, -1, rs)
+		d["rounds_run"] = ran
+		d["workers"] = workers
+		d["shown"] = "the first round in which the id reached the backend more than once, else the last round"
+		out.Add(caseTerm([]int{stPlay}, 0, -1, true, rs), d, true, tags...)
+	}
+	out.Extra("stress_rounds_per_case", 5000)
 	out.Finish()
 }
